@@ -129,8 +129,43 @@ def _float_case(rng):
     return {'op': 'q2s', 'input': [[code(t) for t in ts], code(sps)]}
 
 
+def _rel_tie_time(rng, spq, qpm, big=True):
+    """A time t (exact dyadic) with t*spq*qpm/60 = k + 1/2 EXACTLY in rational arithmetic, or None.
+    x = spq*qpm/60 = a/b in lowest terms; t = (2k+1) b / (2a) is dyadic iff odd(a) divides 2k+1."""
+    F = Fraction
+    x = F(spq) * F(qpm) / 60
+    a, b = x.numerator, x.denominator
+    ao = a
+    while ao % 2 == 0:
+        ao //= 2
+    if ao > 2 ** 30:
+        return None
+    j = 2 * rng.randint(0, 40 if not big or rng.random() < 0.7 else 20000) + 1
+    tq = F(ao * j * b, 2 * a)
+    try:
+        t = float(tq)
+    except OverflowError:
+        return None
+    if F(t) != tq or t > 2.0 ** 36:
+        return None
+    assert (F(t) * x).denominator == 2
+    return t
+
+
+def _tie_qpm(rng):
+    """qpm values for the tie stream: integers 10..480 (resolution representable or not), halves"""
+    return float(rng.randint(10, 480)) if rng.random() < 0.85 else rng.randint(20, 960) / 2.0
+
+
 def _float_rel_case(rng):
     spq = rng.randint(1, 96)
+    if rng.random() < 0.45:
+        qpm = _tie_qpm(rng)
+        t = _rel_tie_time(rng, spq, qpm)
+        if t is not None:
+            if rng.random() < 0.25:
+                t = fl.nextafter_n(t, rng.choice([-2, -1, 1, 2]))
+            return {'op': 'q2s_rel', 'input': [code(t), spq, code(qpm)]}
     qpm = _rand_qpm(rng)
     sps = _sl().steps_per_quarter_to_steps_per_second(spq, qpm)
     return {'op': 'q2s_rel', 'input': [code(_rand_time(rng, sps)), spq, code(qpm)]}
@@ -226,8 +261,9 @@ def _seq_case(rng, op=None, clean=False):
     op = op or rng.choice(['abs', 'rel'])
     tempos = _gen_tempos(rng, 1.0)
     tsigs = _gen_tsigs(rng)
+    ties = clean and op == 'rel' and rng.random() < 0.5     # exact ties of the tempo-relative position
     if clean:
-        q = _rand_qpm(rng)
+        q = _tie_qpm(rng) if ties else _rand_qpm(rng)
         tempos = rng.choice([[], [[0.0, q]], [[0.0, q], [2.5, q]], [[3.0, q], [0.0, q]], [[4.0, 120.0]]])
         v = list(rng.choice(_TS_GOOD))
         tsigs = rng.choice([[], [[0.0] + v], [[2.0] + v, [0.0] + v], [[1.0, 4, 4]]])
@@ -241,7 +277,13 @@ def _seq_case(rng, op=None, clean=False):
             qpm_eff = sorted(tempos, key=lambda r: r[0])[0][1]
         sps = sl.steps_per_quarter_to_steps_per_second(res, qpm_eff)
     big = rng.random() < 0.15
-    T = lambda: _rand_time(rng, sps, big)     # noqa
+
+    def T():
+        if ties and rng.random() < 0.6:
+            t = _rel_tie_time(rng, res, qpm_eff, big)
+            if t is not None:
+                return t
+        return _rand_time(rng, sps, big)
     neg = (not clean) and rng.random() < 0.2
     notes = []
     ninstr = rng.randint(1, 3)
@@ -336,6 +378,15 @@ def corpus():
     d7 = dict(base, notes=[[60, 100, c(0.26), c(0.26), 0, 0, 0, 0, 0, 0], [62, 1, c(0.24), c(0.2400001), 1, 0, 1, 4, 4, 4099]],
               tempos=[], tsigs=[], total=c(0.0))
     out.append({'op': 'abs', 'input': {'res': 2, 'desc': d7}})
+    # exact ties of the tempo-relative position with a NON-representable resolution (3.6, 8.4, 12.3 ... steps/s)
+    for spq, qpm, t in [(3, 72.0, 3.75), (3, 72.0, 1.25), (7, 72.0, 1.25), (4, 126.0, 1.25), (6, 123.0, 5.0),
+                        (3, 11.0, 30.0), (3, 18.0, 15.0), (30, 246.0, 0.5)]:
+        assert (Fraction(t) * spq * Fraction(qpm) / 60).denominator == 2
+        out.append({'op': 'q2s_rel', 'input': [c(t), spq, c(qpm)]})
+        dn = dict(base, notes=[[60, 100, c(t), c(t), 0, 0, 0, 0, 0, 0], [64, 90, c(0.0), c(t), 0, 0, 0, 0, 0, 0]],
+                  tempos=[[c(0.0), c(qpm)]], tsigs=[], total=c(t),
+                  texts=[[c(t), 0, 'C', 1]], ccs=[[c(t), 0, 64, 127, 0, 0, 0]])
+        out.append({'op': 'rel', 'input': {'res': spq, 'desc': dn}})
     # exhaustive small scope for the rejection clause: every list of <= 3 tempos (resp. time signatures)
     # over 2 values x 2 times, i.e. every placement and every storage order of a second / third entry
     tvals = [c(120.0), c(60.0)]
@@ -503,15 +554,62 @@ def _accept(p, exact_tie_claim=True, rel=_REL):
     return lo, hi, want
 
 
-def _step_verdict(step, p, exact_tie_claim=True):
-    # float product (absolute / quantize_to_step): theorem q2s_nearest, 2^-50; exact rational tempo-relative
-    # position: theorem q2s_rel_nearest, 2^-49
-    lo, hi, want = _accept(p, exact_tie_claim, _REL if exact_tie_claim else 2 * _REL)
+def _step_verdict(step, p, exact_tie_claim=True, rel=None):
+    # float product (absolute / quantize_to_step): theorems q2s_nearest / q2s_tie_up, 2^-50;
+    # exact rational tempo-relative position: theorem q2s_rel_nearest, 2^-49, ties by q2s_rel_tie_up
+    if rel is None:
+        rel = _REL if exact_tie_claim else 2 * _REL
+    lo, hi, want = _accept(p, exact_tie_claim, rel)
     if lo <= step <= hi:
         return None
     if exact_tie_claim and p + _HALF == want:
         return 'tie-not-rounded-up'
     return 'not-nearest-step'
+
+
+def _ulp_real(v):
+    """Flocq's ulp of a positive real (Fraction): (2^max(e-52,-1074), e) with 2^e <= v < 2^(e+1)"""
+    e = v.numerator.bit_length() - v.denominator.bit_length()
+    if Fraction(2) ** e > v:
+        e -= 1
+    return Fraction(2) ** max(e - 52, -1074), e
+
+
+def _gap_below(y):
+    """y - pred(y) for a positive binary64-representable y"""
+    u, e = _ulp_real(y)
+    return u / 2 if (y == Fraction(2) ** e and e - 52 > -1074) else u
+
+
+def _representable(v):
+    try:
+        return Fraction(float(v)) == v
+    except OverflowError:
+        return False
+
+
+def _rel_tie_claim(t, spq, qpm):
+    """Does the statement "an exact half-step tie of the exact position t*spq*qpm/60 rounds up" apply?
+    (theorems q2s_rel_tie_up / q2s_rel_tie_up_exact; everything in exact rational arithmetic):
+    the int*float product spq*qpm is exact, the position is exactly k + 1/2, and either the resolution
+    x = spq*qpm/60 is exactly representable or its one rounding, scaled by t, stays below half the gap
+    under k + 1/2:  t * ulp(x) < y - pred(y)."""
+    F = Fraction
+    prod = F(spq) * F(qpm)
+    if not (1 <= spq <= 1024 and 1 <= qpm <= 1024 and 0 <= t <= 2.0 ** 40) or not _representable(prod):
+        return False
+    x = prod / 60
+    y = F(t) * x
+    if y.denominator != 2 or y >= 2 ** 40:
+        return False
+    if _representable(x):
+        return True
+    return F(t) * _ulp_real(x)[0] < _gap_below(y)
+
+
+def _rel_verdict(step, t, spq, qpm):
+    p = Fraction(t) * Fraction(spq) * Fraction(qpm) / 60
+    return _step_verdict(step, p, _rel_tie_claim(t, spq, qpm), 2 * _REL)
 
 
 def _oracle_float_list(ts, sps, steps):
@@ -653,7 +751,7 @@ def _oracle_seq(case):
         p = pos(t)
         if p < 0:
             return None if step >= 0 else {'kind': 'negative-step-in-output', 'what': what, 'index': i, **wit}
-        v = _step_verdict(step, p, exact_tie_claim=not rel)
+        v = _rel_verdict(step, t, res, qpm) if rel else _step_verdict(step, p)
         if v:
             return {'kind': v, 'what': what, 'index': i, 't': t.hex(), 'got': step,
                     'want': math.floor(p + _HALF), **wit}
@@ -673,7 +771,8 @@ def _oracle_seq(case):
         else:
             # qe == qs+1: either the end's own nearest step, or the bumped zero-length note
             pe = pos(n.end_time)
-            if _step_verdict(qe, pe, not rel) and _step_verdict(qs, pe, not rel):
+            vd = (lambda st: _rel_verdict(st, n.end_time, res, qpm)) if rel else (lambda st: _step_verdict(st, pe))
+            if vd(qe) and vd(qs):
                 return {'kind': 'not-nearest-step', 'what': 'note-end', 'index': i, 't': n.end_time.hex(),
                         'got': qe, 'want': math.floor(pe + _HALF), **wit}
         max_end = qe if max_end is None else max(max_end, qe)
@@ -682,7 +781,8 @@ def _oracle_seq(case):
         return {'kind': 'total-steps-do-not-cover-notes', 'total': tq, 'max_end': max_end, **wit}
     if ns.total_time >= 0:
         # total_quantized_steps = max(step(total_time), every note end)
-        lo, hi, want = _accept(pos(ns.total_time), not rel, 2 * _REL if rel else _REL)
+        lo, hi, want = _accept(pos(ns.total_time), _rel_tie_claim(ns.total_time, res, qpm) if rel else True,
+                               2 * _REL if rel else _REL)
         if not any((s if max_end is None else max(s, max_end)) == tq for s in range(lo, hi + 1)):
             return {'kind': 'total-steps-wrong', 'total': tq, 'want_total_time_step': want, 'max_end': max_end, **wit}
     for what, a, b in (('control-change', ns.control_changes, out.control_changes),
@@ -711,12 +811,20 @@ def oracle(case, io):
         return _oracle_float_list(ts, sps, [sl.quantize_to_step(t, sps) for t in ts])
     if op == 'q2s_rel':
         t, spq, qpm = uncode(a[0]), a[1], uncode(a[2])
-        s = sl.quantize_to_step(t, sl.steps_per_quarter_to_steps_per_second(spq, qpm))
+        sps = sl.steps_per_quarter_to_steps_per_second(spq, qpm)
+        s = sl.quantize_to_step(t, sps)
         p = F(t) * F(spq) * F(qpm) / 60
         if p >= 0:
-            v = _step_verdict(s, p, exact_tie_claim=False)
+            v = _rel_verdict(s, t, spq, qpm)
             if v:
-                return {'kind': v, 't': t.hex(), 'spq': spq, 'qpm': qpm.hex(), 'got': s, 'want': math.floor(p + _HALF)}
+                return {'kind': v, 't': t.hex(), 'spq': spq, 'qpm': qpm.hex(), 'got': s, 'want': math.floor(p + _HALF),
+                        'sps': float(sps).hex()}
+        # theorem sps_rel_correctly_rounded: one rounding when the int * float product is exact
+        if _representable(F(spq) * F(qpm)) and 1 <= qpm <= 1024:
+            want = float(F(spq) * F(qpm) / 60)       # int / int true division: correctly rounded
+            if float(sps) != want:
+                return {'kind': 'steps-per-second-not-correctly-rounded', 'spq': spq, 'qpm': qpm.hex(),
+                        'got': float(sps).hex(), 'want': want.hex()}
         return None
     if op == 'fdec':
         return None
